@@ -133,6 +133,16 @@ def run_cache_rule(ctx, ck, only=None, rule='R-CACHE.owner-only'):
 def is_registration_idiom(site):
     """`if o.n is None: o.n = len(X); X.append(o)`: numbering an object when it is first added to a
     list (a registration index), not a cached computation"""
+    if site.kind == 'dict-key':
+        # `if key not in reg: reg[key] = (n, self)`: an object entering itself into a registry under a key (the
+        # end-point dictionary), or copying an existing entry to a second key - not a cached computation
+        v = site.value
+        if isinstance(v, ast.Tuple) and any(isinstance(x_, ast.Name) and x_.id == 'self' for x_ in v.elts):
+            return True
+        if isinstance(v, ast.Subscript) and isinstance(v.value, ast.Attribute) and v.value.attr == site.attr and \
+           norm(v.value.value) == site.owner:
+            return True
+        return False
     if site.kind != 'attr-none' or site.guard is None:
         return False
     v = site.value
